@@ -27,6 +27,7 @@ import Kopf.Lemmas.C16_Merge
 import Kopf.Lemmas.C16_Ops
 import Kopf.Lemmas.C16_Keys
 import Kopf.Lemmas.C16_Clear
+import Kopf.Lemmas.C16_StatusClear
 import Kopf.Lemmas.C16_Multi
 namespace Kopf.C16
 open Kopf Kopf.J
@@ -667,6 +668,128 @@ theorem clear_keeps_foreign (c : AnnCfg) (e e' : J) (h : annClear c e = .ok e') 
     (hu : underPrefix c.pfx name = false) :
     resolve? e' ["metadata", "annotations", name] = resolve? e ["metadata", "annotations", name] :=
   annClear_keeps c e e' h name hu
+
+/-! ## `clear` of the status storage, and of any storage tree, since kopf 571b1b2
+
+Before 571b1b2 `StatusProgressStorage.clear` let the TypeError of `dicts.remove` out whenever one of its
+two fields was hidden behind a non-mapping value of the object (`status: "a string"`, `status.kopf: 7`,
+`status: null` with a handler's field restoring it): the cause of every event of that object could not
+be detected any more (C04-F13). Now (`removeLenient`) a hidden field is an absent field. Stated for ALL
+essences — `EssOK e` asks only what the API guarantees (the essence, its `metadata` and its
+`metadata.annotations` are mappings where present); `status` and `spec` may hold anything:
+
+* `clear_never_raises`   — no storage tree's `clear` raises (and the result is `EssOK` again);
+* `clear_leaves_nothing_own` — after the `clear` of any tree, nothing that any of its leaves owns — an annotation
+  under its prefix, its progress field, its touch field — is found in the essence (hidden or not:
+  the framework's own writes never reach the diff);
+* `clear_hidden_untouched`, `clear_hidden_each_on_its_own` — the hidden case says what it does: nothing is
+  removed; and a hidden progress field does not keep the touch field in the essence;
+* `clear_hidden_regression` — the variant before the repair raises on `status: "a string"`. -/
+
+/-- **No `clear` raises**: for ANY tree of progress storages (any prefixes, any non-empty status fields) and
+    ANY essence whose `metadata` / `metadata.annotations` are mappings where present — whatever `status`,
+    `spec`, … hold, a string, a number, a list, null — `clear` answers with an essence (of the same kind). -/
+theorem clear_never_raises (t : STree) (hl : ∀ l ∈ t.flatten, l.fieldsNonEmpty) (e : J) (he : EssOK e) :
+    ∃ e', STree.clear e t = .ok e' ∧ EssOK e' := by
+  rw [(tree_ops_flat ⟨id, fun _ => "", fun _ => none⟩ null [] [] null e t).2.2.2.2]
+  exact clear_total t.flatten hl he
+
+/-- **Nothing of the framework's own is left in the essence**: after the `clear` of any storage tree, no
+    leaf's annotation (any name under its prefix), progress field or touch field is found in the result —
+    with or without non-mapping values on the way (since 571b1b2 `clear` answers in both cases). -/
+theorem clear_leaves_nothing_own (t : STree) (e e' : J) (h : STree.clear e t = .ok e')
+    (l : Leaf) (hl : l ∈ t.flatten) (q : Path) (hq : l.ownsInEssence q) : resolve? e' q = none := by
+  rw [(tree_ops_flat ⟨id, fun _ => "", fun _ => none⟩ null [] [] null e t).2.2.2.2] at h
+  exact clear_removes t.flatten h l hl q hq
+
+/-- the status leaf alone: both fields are gone -/
+theorem clear_removes_own_status (c : StatusCfg) (e e' : J) (h : statusClear c e = .ok e') :
+    resolve? e' c.field = none ∧ resolve? e' c.touchField = none :=
+  statusClear_removes h
+
+/-- **Hidden fields**: when both fields of the status storage are hidden behind non-mapping values of the
+    essence, nothing is removed and nothing is raised: `clear` is `remove_empty_stanzas` alone. -/
+theorem clear_hidden_untouched (c : StatusCfg) (e : J) (h1 : hiddenAt e c.field = true)
+    (h2 : hiddenAt e c.touchField = true) : statusClear c e = removeEmptyStanzas e := by
+  simp only [statusClear, removeLenient_hidden h1, removeLenient_hidden h2]
+
+/-- each removal is skipped on its own: a hidden progress field does not keep a reachable touch field
+    in the essence (one `try` around both removals would) -/
+theorem clear_hidden_each_on_its_own (c : StatusCfg) (e e2 : J) (h1 : hiddenAt e c.field = true)
+    (h2 : remove e c.touchField = .ok e2) : statusClear c e = removeEmptyStanzas e2 := by
+  simp only [statusClear, removeLenient_hidden h1, removeLenient_of_remove h2]
+
+/-- **A hidden field is an absent field, for every operation of the status storage** (the model has said so
+    all along — `dicts.resolve` with a default, writes go to the patch; `clear` since 571b1b2): on an object
+    whose progress field / touch field is hidden behind a non-mapping value, `fetch` reads nothing and raises
+    nothing, `purge` and `touch` decide as on an object without a `status` at all (`store` never looks at the
+    object). -/
+theorem status_hidden_is_absent (c : StatusCfg) (body patch value : J) (k : Str) :
+    (hiddenAt body c.field = true → statusFetch c body k = .ok none ∧
+      statusPurge c body patch k = statusPurge c (obj []) patch k) ∧
+    (hiddenAt body c.touchField = true → statusTouch c body patch value = statusTouch c (obj []) patch value) := by
+  refine ⟨fun h => ⟨?_, ?_⟩, fun h => ?_⟩
+  · have hn : resolve? body c.field = none := resolve_none_of_hidden _ _ h
+    simp [statusFetch, hn, lookup]
+  · have hn := resolve_none_under_hidden h [String.ofList k]
+    have hf : c.field ≠ [] := by intro e; rw [e, hiddenAt_nil] at h; cases h
+    obtain ⟨a, as, ha⟩ : ∃ a as, c.field = a :: as := by cases hc : c.field with
+      | nil => exact absurd hc hf
+      | cons a as => exact ⟨a, as, rfl⟩
+    have h0 : resolve? (obj []) (c.field ++ [String.ofList k]) = none := by
+      rw [ha, List.cons_append]; exact resolve_nil_obj_cons _ _
+    simp only [statusPurge, purgePath, hn, h0]
+  · have hn : resolve? body c.touchField = none := resolve_none_of_hidden _ _ h
+    obtain ⟨a, as, ha⟩ : ∃ a as, c.touchField = a :: as := by cases hc : c.touchField with
+      | nil => rw [hc, hiddenAt_nil] at h; cases h
+      | cons a as => exact ⟨a, as, rfl⟩
+    have h0 : resolve? (obj []) c.touchField = none := by rw [ha]; exact resolve_nil_obj_cons _ _
+    simp only [statusTouch, resolveD, hn, h0]
+
+/-- … and the round trip goes through it: a record stored for ANY id on an object with a hidden progress field
+    is what `fetch` reads from the patched object (the merge-patch replaces the value in the way by the
+    mapping the record is written into) -/
+theorem roundtrip_status_hidden (c : StatusCfg) (hnw : c.noWrite = false) (body patch0 patch' : J) (k : Str) (r : Rec)
+    (hw : wf patch0 = true) (hr : FlatRec r) (hh : hiddenAt body c.field = true)
+    (h : statusStore c patch0 k r = .ok patch') :
+    statusFetch c (mergePatch body patch') k = .ok (some (obj (stored false r))) :=
+  roundtrip_status_fresh c hnw body patch0 patch' k r hw hr
+    (by rw [resolve_none_under_hidden hh [String.ofList k]]; rfl) h
+
+/-- `hiddenAt` is exactly "dicts.remove raises TypeError" -/
+theorem hidden_iff_typeError (e : J) (f : Path) : hiddenAt e f = true ↔ remove e f = .error .typeError :=
+  ⟨remove_hidden f e, hidden_of_remove_typeError⟩
+
+/-- **Regression of C04-F13** (the variant before 571b1b2 on `status: "a string"`, default fields): the old
+    `clear` raises TypeError; the repaired one returns the essence as it is — the string is the user's. -/
+theorem clear_hidden_regression :
+    let c : StatusCfg := ⟨["status", "kopf", "progress"], ["status", "kopf", "dummy"], false⟩
+    let e : J := obj [("spec", obj [("n", num 1)]), ("status", str "a string")]
+    statusClearStrict c e = .error .type ∧ statusClear c e = .ok e := by
+  intro c e
+  exact ⟨by rfl, by rfl⟩
+
+-- non-vacuity: `status.kopf: 7` hides both default fields; `status: null` as well; a touch field elsewhere is
+-- removed although the progress field is hidden; the essence of the regression is `EssOK`
+example : hiddenAt (obj [("status", obj [("kopf", num 7), ("x", num 1)])]) ["status", "kopf", "progress"] = true := by decide
+example : hiddenAt (obj [("status", null)]) ["status", "kopf", "dummy"] = true := by decide
+example : hiddenAt (obj [("status", obj [("x", num 1)])]) ["status", "kopf", "progress"] = false := by decide
+example : statusClear ⟨["status", "kopf", "progress"], ["status", "kopf", "dummy"], false⟩
+    (obj [("status", obj [("kopf", num 7), ("x", num 1)])]) = .ok (obj [("status", obj [("kopf", num 7), ("x", num 1)])]) := by rfl
+example : statusClear ⟨["status", "kopf", "progress"], ["poke", "t"], false⟩
+    (obj [("poke", obj [("t", str "2020")]), ("status", str "s")]) = .ok (obj [("status", str "s")]) := by rfl
+-- a record stored on an object whose status is a string is read back from the patched object
+example : (match statusStore ⟨["status", "kopf", "progress"], ["status", "kopf", "dummy"], false⟩ (obj []) ['f', 'n'] [("retries", num 1)] with
+    | .ok p => (match statusFetch ⟨["status", "kopf", "progress"], ["status", "kopf", "dummy"], false⟩
+          (mergePatch (obj [("status", str "a string")]) p) ['f', 'n'] with
+        | .ok (some j) => j == obj [("retries", num 1)]
+        | _ => false)
+    | _ => false) = true := by decide
+example : EssOK (obj [("spec", obj [("n", num 1)]), ("status", str "a string")]) :=
+  ⟨fun v h => by rw [resolve_nil] at h; cases h; rfl, fun v h => by simp [resolve?, lookup] at h,
+   fun v h => by simp [resolve?, lookup] at h⟩
+example : (Leaf.status ⟨["status", "kopf", "progress"], ["status", "kopf", "dummy"], false⟩).fieldsNonEmpty :=
+  ⟨by simp, by simp⟩
 
 /-! ## The names do not move
 
